@@ -12,8 +12,8 @@ thread_local! {
 }
 
 struct Turnstile {
-    /// remaining schedule: thread index allowed to perform its next labelled shared operation
-    schedule: Vec<usize>,
+    /// remaining schedule: (thread index, label) allowed to perform its next labelled shared operation; label "*" matches any
+    schedule: Vec<(usize, String)>,
     pos: usize,
     /// log of (thread, label) in execution order
     log: Vec<(usize, String)>,
@@ -27,6 +27,12 @@ static TURN_CV: Condvar = Condvar::new();
 
 /// Install a schedule (sequence of thread indices). `threads` = number of participating threads.
 pub fn install_schedule(schedule: Vec<usize>, threads: usize) {
+    install_labelled_schedule(schedule.into_iter().map(|t| (t, "*".to_string())).collect(), threads)
+}
+
+/// Install a schedule of (thread, label) pairs. A thread arriving at a point whose label differs from its next scheduled
+/// label passes through immediately (the operation has no counterpart in the schedule).
+pub fn install_labelled_schedule(schedule: Vec<(usize, String)>, threads: usize) {
     let mut g = TURNSTILE.lock().unwrap_or_else(|e| e.into_inner());
     *g = Some(Turnstile {
         schedule,
@@ -66,7 +72,7 @@ pub fn leave_thread() {
 }
 
 fn skip_finished(t: &mut Turnstile) {
-    while t.pos < t.schedule.len() && t.finished.get(t.schedule[t.pos]).copied().unwrap_or(true) {
+    while t.pos < t.schedule.len() && t.finished.get(t.schedule[t.pos].0).copied().unwrap_or(true) {
         t.pos += 1;
     }
     if t.pos >= t.schedule.len() {
@@ -91,7 +97,21 @@ pub fn point(label: &'static str) {
             t.log.push((idx, label.to_string()));
             return;
         }
-        if t.schedule[t.pos] == idx {
+        // next entry of this thread
+        let mine = t.schedule[t.pos..].iter().find(|(th, _)| *th == idx).cloned();
+        match mine {
+            None => {
+                t.log.push((idx, format!("{}~", label)));
+                return;
+            }
+            Some((_, l)) if l != "*" && l != label => {
+                // operation without a counterpart in the schedule: runs as part of the thread's current step
+                t.log.push((idx, format!("{}~", label)));
+                return;
+            }
+            _ => {}
+        }
+        if t.schedule[t.pos].0 == idx {
             t.pos += 1;
             t.log.push((idx, label.to_string()));
             skip_finished(t);
@@ -116,3 +136,6 @@ pub fn point(label: &'static str) {
 
 /// Detached mailbox (`ActorProperties` + its receivers) for schedule replays.
 pub use crate::actor::actor_properties::verif_probe as mailbox;
+
+/// Real ActorCell + lifecycle guard without a running task.
+pub use crate::actor::verif_probe as lifecycle;
